@@ -34,7 +34,8 @@ func ruleGem(p *Prog, r *Report) {
 			r.Und("R-GEM-TABLE", key, pos, "Compare's position-wise loop: "+oof)
 		} else {
 			isNumK, intK, strK, presK := "", "", "", "present:"+seq
-			for k, ti := range c.terms {
+			for _, k := range c.termKeys() {
+				ti := c.terms[k]
 				if !strings.HasPrefix(k, seq+"[i].") || len(ti.base) != 0 {
 					continue
 				}
